@@ -6,7 +6,8 @@ import sys
 from . import alias, knobs, ops, pools
 from .common import canon, digest, is_adaptix_file, short_file
 from .sig import outcome as sig_outcome
-from .sig import sig_value, tname
+from . import sig
+from .sig import sig_value, strip_payload, tname
 
 mon = sys.monitoring
 TOOL = 3
@@ -279,7 +280,8 @@ C20_TYPES = ["ListInt", "ListListInt", "DictStrListInt", "DDictStrListInt", "Set
              "MapStrListInt", "MMapStrListInt", "SeqListInt", "IterListInt", "TupListDict", "TupListEll", "DequeInt", "DictStrM1",
              "DictStrNode", "ListM1", "Tree", "LinkedInt", "SetTupInt", "PM", "SnakeCase", "DDictStrInt", "TupIntEll", "Perm", "M2",
              "ULM1LM2", "UDM1DM2", "SatModel", "SatOpt", "SatOpt", "SnakeCase", "WithExtra2", "WithExtra3", "WithExtra4", "WithExtra4", "TNode", "TupIntStr",
-             "TupLit01"]
+             "TupLit01", "LitBig", "LitBig", "Pixel", "Pixel", "ListPixel", "ListShade", "DictStrLitBig", "OptLitBig", "ListPerm",
+             "Color", "Status", "Shade", "Perm", "DeepDefaults", "DeepDefaults", "ListDeepDefaults", "NT"]
 C20_RECIPES = ["plain", "plain", "nm_extra_collect", "nm_extra_collect", "nm_omit_default", "nm_as_list", "nm_camel",
                "nm_extra_forbid", "validator_inner", "chain_node_children", "flag_names", "flag_names", "nm_saturator", "nm_saturator", "nm_paths", "nm_paths"]
 C20_CONV = ["CDq", "CDq", "OptListInner", "OptListInner", "OptDictInner", "CLinkStr", "ImplExtra", "ImplTags", "ImplTags","Outer", "OuterSame", "Inner", "InnerSame", "ListInner", "GIntGInt", "OptInner", "DictInner", "InnerTags", "M1M2",
@@ -298,10 +300,13 @@ def gen_c20(seed, cfg=None):  # noqa: C901, PLR0912
     callables = []
     for _ in range(rng.randint(3, 12)):
         r = rng.random()
-        if r < 0.16 and call_ops:
-            op = {"op": "scramble_result", "r": rng.choice(call_ops)}
+        if r < 0.13 and call_ops:
+            op = {"op": "scramble_result", "r": rng.choice(call_ops), "hard": rng.random() < 0.4}
+        elif r < 0.22 and call_ops:
+            op = {"op": "scramble_arg", "r": rng.choice(call_ops), "hard": rng.random() < 0.4}
         elif r < 0.28 and call_ops:
-            op = {"op": "scramble_arg", "r": rng.choice(call_ops)}
+            # the client overwrites whatever it can reach from the exceptions earlier calls raised
+            op = {"op": "scramble_exc"}
         elif r < 0.40:
             c = rng.choice(C20_CONV)
             if rng.random() < 0.3:
@@ -455,11 +460,13 @@ def execute(scn, refs):  # noqa: C901, PLR0912, PLR0915
     not_fired = 0
     kept = {}      # op index -> {"res", "arg", "res_snap", "arg_snap", "scr_res", "scr_arg", "exclude"}
     n_scrambles = 0
-    stats = {"ops": len(plain), "interrupts_fired": 0, "interrupts_not_fired": 0, "failed_requests": 0,
+    n_exc_scrambles = 0
+    stats = {"scrambled_exc_containers": 0, "ops": len(plain), "interrupts_fired": 0, "interrupts_not_fired": 0, "failed_requests": 0,
              "scrambled_containers": 0, "compared": 0, "alias_checks": 0, "snapshots_rechecked": 0,
              "call_cache_sizes": []}
     recipes_of = [_recipes_of(world, h) for h in range(len(world.handles))]
-    default_ids = alias.declared_default_ids() if c20 else {}
+    default_ids = alias.declared_default_ids() if c20 else {}                       # excused from the aliasing oracle
+    own_default_ids = alias.declared_default_ids(everything=True) if c20 else {}    # never scrambled by the client
 
     def recheck(i_now):
         for j, kp in sorted(kept.items()):
@@ -479,15 +486,28 @@ def execute(scn, refs):  # noqa: C901, PLR0912, PLR0915
     try:
         for i, op in enumerate(scn["ops"]):
             kind = op["op"]
+            if kind == "scramble_exc":
+                for j, kp in sorted(kept.items()):
+                    e = kp.pop("exc", None)
+                    if e is None:
+                        continue
+                    # containers of the caller's own argument are the caller's (input_value): not touched here
+                    excl = {**alias.reach(kp["arg"]), **kp["exclude"]}
+                    for root in alias.exc_payload_roots(e):
+                        m = alias.scramble(root, excl, hard=True)
+                        stats["scrambled_exc_containers"] += m
+                        n_exc_scrambles += 1 if m else 0
+                recheck(i)
+                continue
             if kind.startswith("scramble"):
                 kp = kept.get(op["r"])
                 if kp is None:
                     continue
                 if kind == "scramble_result" and kp["res"] is not None:
-                    n = alias.scramble(kp["res"], kp["exclude"])
+                    n = alias.scramble(kp["res"], kp["exclude"], hard=op.get("hard", False))
                     kp["scr_res"] = True
                 else:
-                    n = alias.scramble(kp["arg"], kp["exclude"])
+                    n = alias.scramble(kp["arg"], kp["exclude"], hard=op.get("hard", False))
                     kp["scr_arg"] = True
                 stats["scrambled_containers"] += n
                 n_scrambles += 1
@@ -538,9 +558,10 @@ def execute(scn, refs):  # noqa: C901, PLR0912, PLR0915
                 stats["compared"] += 1
                 if exp[0] == "exc":
                     stats["failed_requests"] += 1
-                if out != exp:
+                if (strip_payload(out) != strip_payload(exp)) if n_exc_scrambles else (out != exp):
                     violations.append({"class": classify(exp, out), "op_index": i, "op": op, "expected": exp, "observed": out,
-                                       "after_interrupt": bool(fired), "after_scramble": n_scrambles > 0})
+                                       "after_interrupt": bool(fired), "after_scramble": n_scrambles > 0,
+                                       "after_exc_scramble": n_exc_scrambles > 0})
             elif kind in ("replace", "extend") and out[0] != "handle":
                 violations.append({"class": "unexpected-exception", "op_index": i, "op": op, "expected": ["handle"],
                                    "observed": out})
@@ -567,6 +588,7 @@ def execute(scn, refs):  # noqa: C901, PLR0912, PLR0915
                                                recipes_of[plain[i].get("h", 0)] if kind != "call" else
                                                _call_recipes(world, op, recipes_of))
                 exclude = {**allowed, **default_ids}
+                no_scramble = {**allowed, **own_default_ids}
                 res_ok = out[0] == "ok"
                 if res_ok:
                     # oracle 4: no mutable container shared with the argument (outside declared as-is positions) ...
@@ -589,7 +611,8 @@ def execute(scn, refs):  # noqa: C901, PLR0912, PLR0915
                                                "observed": [sig_value(x) for x in sh[:3]]})
                             break
                 kept[i] = {"res": res if res_ok else None, "arg": arg, "res_snap": sig_value(res) if res_ok else None,
-                           "arg_snap": after, "scr_res": False, "scr_arg": False, "exclude": exclude}
+                           "arg_snap": after, "scr_res": False, "scr_arg": False, "exclude": no_scramble,
+                           "exc": sig.LAST_EXC[0] if out[0] == "exc" and not fired_here else None}
             if len(violations) > 6:
                 break
         if c20:
@@ -839,7 +862,7 @@ def coverage(oks, tier):
     for r in oks:
         st = r["summary"]["stats"]
         for k in ("ops", "interrupts_fired", "interrupts_not_fired", "failed_requests", "scrambled_containers", "compared",
-                  "alias_checks", "snapshots_rechecked"):
+                  "scrambled_exc_containers", "alias_checks", "snapshots_rechecked"):
             agg[k] += st.get(k, 0)
         kinds.update(r["summary"]["kinds"])
         sites.update(r["summary"]["fired_sites"])
@@ -867,6 +890,7 @@ def coverage(oks, tier):
             "interrupt_planned_but_request_already_cached": agg["interrupts_not_fired"],
             "failed_requests_(natural)": agg["failed_requests"],
             "client_scrambled_containers": agg["scrambled_containers"],
+            "client_scrambled_exception_payload_containers": agg["scrambled_exc_containers"],
             "normalisation_cache_evictions": evicted,
         },
         "ops_compared_with_reference": agg["compared"],
